@@ -3,12 +3,14 @@ package checks
 // Registry maps property ids to check entry points.
 var Registry = map[string]func(tier string) int{
 	"C01": C01,
+	"C02": C02,
 	"C03": C03,
 	"C04": C04,
 	"C05": C05,
 	"C06": C06,
 	"C15": C15,
 	"C16": C16,
+	"C19": C19,
 }
 
 // Probe dispatches child-process probes (scenarios that may die fatally).
